@@ -40,6 +40,22 @@ pub enum Ev {
     Sleep { ns: i64, t: i64 },
 }
 
+/// Per-operation aggregates (kept exactly even when the event log is capped).
+#[derive(Clone, Copy, Debug, Default)]
+pub struct Agg {
+    pub nwait: u64,
+    pub nsleep: u64,
+    pub blocking_wait: bool,
+    /// two status checks without a positive sleep in between
+    pub busy_wait: bool,
+    pub last_was_wait: bool,
+    /// latest instant any sleep extends to
+    pub max_sleep_end: i64,
+    pub dropped_events: u64,
+}
+
+pub const LOG_CAP_PER_OP: usize = 4096;
+
 pub struct SimProc {
     pub pid: i32,
     pub now: i64,
@@ -56,6 +72,8 @@ pub struct SimProc {
     pub clock_reads: u64,
     pub budget: u64,
     pub over_budget: bool,
+    pub agg: Agg,
+    pub op_log_start: usize,
 }
 
 pub fn status_word_exit(code: u8) -> i32 {
@@ -88,6 +106,8 @@ impl SimProc {
             clock_reads: 0,
             budget: 200_000_000,
             over_budget: false,
+            agg: Agg::default(),
+            op_log_start: 0,
         }
     }
     pub fn dead(&self) -> bool {
@@ -142,13 +162,30 @@ impl SimHooks for SimProc {
         if self.calls > self.budget {
             self.over_budget = true;
         }
-        self.log.push(Ev::Sleep { ns, t: self.now });
+        self.agg.nsleep += 1;
+        if ns > 0 {
+            self.agg.last_was_wait = false;
+        }
+        self.agg.max_sleep_end = self.agg.max_sleep_end.max(self.now.saturating_add(ns.max(0)));
+        if self.log.len() - self.op_log_start < LOG_CAP_PER_OP {
+            self.log.push(Ev::Sleep { ns, t: self.now });
+        } else {
+            self.agg.dropped_events += 1;
+        }
         self.now = self.now.saturating_add(ns.max(0));
         ip::VCLOCK_NS.store(self.now, std::sync::atomic::Ordering::Relaxed);
     }
     fn waitpid(&mut self, pid: pid_t, status: *mut c_int, opts: c_int) -> pid_t {
         self.tick();
         let t = self.now;
+        self.agg.nwait += 1;
+        if opts & libc::WNOHANG == 0 {
+            self.agg.blocking_wait = true;
+        }
+        if self.agg.last_was_wait {
+            self.agg.busy_wait = true;
+        }
+        self.agg.last_was_wait = true;
         if self.over_budget {
             ip::set_errno(libc::EINTR);
             self.log.push(Ev::Waitpid { pid, opts, ret: -1, status: 0, err: libc::EINTR, t });
@@ -187,7 +224,11 @@ impl SimHooks for SimProc {
             // there to catch code that trusts it
             unsafe { *status = 0x0b0b };
         }
-        self.log.push(Ev::Waitpid { pid, opts, ret: 0, status: 0, err: 0, t });
+        if self.log.len() - self.op_log_start < LOG_CAP_PER_OP {
+            self.log.push(Ev::Waitpid { pid, opts, ret: 0, status: 0, err: 0, t });
+        } else {
+            self.agg.dropped_events += 1;
+        }
         0
     }
     fn kill(&mut self, pid: pid_t, sig: c_int) -> c_int {
